@@ -5,7 +5,7 @@
 set -u
 sid=$1; prop=$2; pkg=$3; tier=${4:-quick}
 export GOFLAGS=-mod=mod GOPROXY=off GOSUMDB=off GOTOOLCHAIN=local
-src=/tmp/seed/$sid/OUT
+src=/tmp/seed/$sid/OUT; [ -f $src/patch.diff ] || src=/verif/seeded/$sid
 wt=/tmp/seedv/$sid
 rm -rf $wt; git -C /repo worktree prune; mkdir -p /tmp/seedv
 git -C /repo worktree add -q --detach $wt HEAD || exit 2
@@ -27,7 +27,7 @@ echo "$out" | grep -c "^VIOLATION" | sed 's/^/violation_lines=/'
 echo "$out" | grep "violated:" | sed 's/\[github.*//;s/\[(\*github.*//' | sort | uniq -c | sort -rn | head -4
 echo "$out" | tail -1 | cut -c1-160
 mkdir -p /verif/seeded/$sid
-cp $src/patch.diff /verif/seeded/$sid/patch.diff
-cp $src/zz_demo_test.go /verif/seeded/$sid/zz_demo_test.go
+[ "$src" = "/verif/seeded/$sid" ] || cp $src/patch.diff /verif/seeded/$sid/patch.diff
+[ "$src" = "/verif/seeded/$sid" ] || cp $src/zz_demo_test.go /verif/seeded/$sid/zz_demo_test.go
 cp $src/notes.txt /verif/seeded/$sid/notes.txt 2>/dev/null
 echo "$out" | tail -40 > /verif/seeded/$sid/check_output.txt
